@@ -24,26 +24,27 @@ Definition ml_ok (st : ml_state) (c : call) : Prop :=
   match c with
   | DcsSet PMaster v => exists h, v = VHost h /\ mw st = Some h
   | DcsSet PLastSwitch _ => False             (* the procedure itself never records a success *)
+  | DcsCreate PSwitch _ => False              (* ... and never files a request *)
   | _ => True
   end.
 (* the procedure reports success only when the master key was written and the write was answered OK *)
 Definition ml_post {X} (st : ml_state) (a : sw_err * X) : Prop := fst a = SwOk -> mokd st = true.
 
 Definition ml_calm (c : call) : bool :=
-  match c with Sql _ SSetWritable | DcsSet PMaster _ | DcsSet PLastSwitch _ => false | _ => true end.
+  match c with Sql _ SSetWritable | DcsSet PMaster _ | DcsSet PLastSwitch _ | DcsCreate PSwitch _ => false | _ => true end.
 
 Lemma ml_calm_ok c st : ml_calm c = true -> mdone st = false -> ml_ok st c /\ neutral ml_state ml_step c.
 Proof.
   intros H Hd. split.
-  - split; [exact Hd|]. destruct c; try exact I. destruct p; try exact I; discriminate H.
+  - split; [exact Hd|]. destruct c; try exact I; destruct p; try exact I; discriminate H.
   - intros st' r. destruct c; try reflexivity.
     + destruct s; try reflexivity. discriminate H.
     + destruct p; try reflexivity. discriminate H.
 Qed.
 Lemma calmb_ml c : calmb c = true -> ml_calm c = true.
-Proof. destruct c; cbn; try reflexivity; intros H. - destruct s; try reflexivity; discriminate H. - destruct p; try reflexivity; discriminate H. Qed.
+Proof. destruct c; cbn; try reflexivity; intros H; try (destruct s; try reflexivity; discriminate H); destruct p; try reflexivity; discriminate H. Qed.
 Lemma calm1b_ml c : calm1b c = true -> ml_calm c = true.
-Proof. destruct c; cbn; try reflexivity; intros H. - destruct s; try reflexivity; discriminate H. - destruct p; try reflexivity; discriminate H. Qed.
+Proof. destruct c; cbn; try reflexivity; intros H; try (destruct s; try reflexivity; discriminate H); destruct p; try reflexivity; discriminate H. Qed.
 
 Lemma ml_of_calm {A} (p : prog A) st : mdone st = false -> allcalls (fun _ c => calmb c = true) p ->
   allcalls (fun _ c => ml_ok st c /\ neutral ml_state ml_step c) p.
@@ -288,5 +289,18 @@ Theorem switchover_never_records_success cfg env sw mem tr o : runs (perform_swi
   Forall (fun e => forall v, ev_call e <> DcsSet PLastSwitch v) tr.
 Proof.
   intros R. eapply ml_trace_no_success_record.
+  exact (safe_sound ml_state ml_step ml_ok _ _ (switchover_master_last cfg env sw mem) tr o R).
+Qed.
+
+Lemma ml_trace_no_filing : forall tr st, trace_ok ml_state ml_step ml_ok st tr ->
+  Forall (fun e => forall v, ev_call e <> DcsCreate PSwitch v) tr.
+Proof.
+  induction tr as [|x r IH]; intros st H; [constructor|]. cbn in H. destruct H as [[_ Hok] Hr].
+  constructor; [|exact (IH _ Hr)]. intros v E. rewrite E in Hok. exact Hok.
+Qed.
+Theorem switchover_never_files cfg env sw mem tr o : runs (perform_switchover cfg env sw mem) tr o ->
+  Forall (fun e => forall v, ev_call e <> DcsCreate PSwitch v) tr.
+Proof.
+  intros R. eapply ml_trace_no_filing.
   exact (safe_sound ml_state ml_step ml_ok _ _ (switchover_master_last cfg env sw mem) tr o R).
 Qed.
